@@ -30,10 +30,9 @@ def kindOf : String → Option (Kind × String)
 def resName : Model.Link.Res → String
   | .accepted => "accepted" | .needData => "needData" | .err e => "err-" ++ e.name
 
-/-- `link init` | `link op <s|r> <kind> <ssn> <rsn> [rrok]`.
+/-- `link init` | `link op <s|r> <kind> <ssn> <rsn>`.
     Answer: `<acc|ref> <phase> <nSent%8> <nRecv%8> | <model result> <state> <sSsn> <sRsn> <cSsn> <cRsn>`.
-    The left part is the procedure (Spec.Nrm; with `rrok`, an RR on receipt is accepted as the
-    procedure allows), the right part the model of the code. -/
+    The left part is the procedure (Spec.Nrm), the right part the model of the code. -/
 def handle (st : S) : List String → S × String
   | ["init"] => ({}, "ok")
   | "op" :: d :: k :: ssn :: rsn :: rest =>
@@ -41,16 +40,19 @@ def handle (st : S) : List String → S × String
     | none => (st, "bad-op")
     | some (kind, cls) =>
       let dir := if d == "s" then Dir.send else Dir.recv
-      let rrok := rest == ["rrok"]
-      let (sp', acc) :=
-        if !rrok && dir == .recv && kind == .rr then (st.spec, false)
-        else step st.spec dir kind ssn.toNat! rsn.toNat!
+      let _ := rest
       let (m', r) := match dir with
         | .send => Model.Link.send T st.model cls ssn.toNat! rsn.toNat!
         | .recv => Model.Link.recv T st.model cls ssn.toNat! rsn.toNat!
+      -- an RR received while a response is awaited: the procedure allows it, C11 does not demand it;
+      -- the abstract state follows what the code did and no verdict is given
+      let free := dir == .recv && kind == .rr && st.spec.link == .awaitingResponse
+      let (sp', acc) :=
+        if free && r != .accepted then (st.spec, false)
+        else step st.spec dir kind ssn.toNat! rsn.toNat!
+      let left := if free then "na" else s!"{if acc then "acc" else "ref"} {linkName sp'.link} {sp'.nSent % 8} {sp'.nRecv % 8}"
       ({ spec := sp', model := m' },
-        s!"{if acc then "acc" else "ref"} {linkName sp'.link} {sp'.nSent % 8} {sp'.nRecv % 8} | " ++
-        s!"{resName r} {m'.state} {m'.serverSsn} {m'.serverRsn} {m'.clientSsn} {m'.clientRsn}")
+        s!"{left} | {resName r} {m'.state} {m'.serverSsn} {m'.serverRsn} {m'.clientSsn} {m'.clientRsn}")
   | _ => (st, "bad-op")
 
 end Run.Link
